@@ -126,3 +126,142 @@ func c01NilSentinel(c *Ctx, reach map[*ssa.Function]bool) {
 	r.Count("nil_sentinel_fields", len(sentinel))
 	r.Count("nil_sentinel_derefs", n)
 }
+
+// c01NilReturn (R9): a module function with a single pointer result that returns nil on some path
+// and a real object on another ("no such thing") hands its caller a value that must be tested.
+// On peer-driven code every use of such a result that dereferences it, calls a method on it or
+// boxes it into an interface (the callee will call a method on it) must be behind a non-nil test
+// of that result, or be listed in the triage table with the reason why nil cannot arrive there.
+func c01NilReturn(c *Ctx, reach map[*ssa.Function]bool, tab *triageTable) {
+	p, r := c.P, c.R
+	want := map[string]*triageEntry{}
+	for i := range tab.Sites {
+		e := &tab.Sites[i]
+		if e.Kind == "NilResult" {
+			want[e.Func+" NilResult "+e.Expr] = e
+		}
+	}
+	maybeNil := map[*ssa.Function]bool{}
+	for _, fn := range p.ModuleFuncs() {
+		rs := fn.Signature.Results()
+		if rs.Len() != 1 {
+			continue
+		}
+		if _, isPtr := rs.At(0).Type().Underlying().(*types.Pointer); !isPtr {
+			continue
+		}
+		nilRet, objRet := false, false
+		for _, ret := range core.Returns(fn) {
+			v := core.ResolveSpill(ret.Results[0])
+			if core.IsNilConst(v) {
+				nilRet = true
+			} else {
+				objRet = true
+			}
+		}
+		if nilRet && objRet {
+			maybeNil[fn] = true
+		}
+	}
+	var fns []*ssa.Function
+	for f := range reach {
+		fns = append(fns, f)
+	}
+	sort.Slice(fns, func(i, j int) bool { return fns[i].String() < fns[j].String() })
+	n := 0
+	for _, fn := range fns {
+		perFn := map[string]int{}
+		core.Calls(fn, func(ci ssa.CallInstruction) {
+			call, ok := ci.(*ssa.Call)
+			cf := core.StaticCalleeFn(ci)
+			if !ok || cf == nil || !maybeNil[cf] {
+				return
+			}
+			// uses that need the object
+			var needs []ssa.Instruction
+			var walk func(v ssa.Value, depth int)
+			seen := map[ssa.Value]bool{}
+			walk = func(v ssa.Value, depth int) {
+				if seen[v] || depth > 3 || v.Referrers() == nil {
+					return
+				}
+				seen[v] = true
+				for _, rf := range *v.Referrers() {
+					switch x := rf.(type) {
+					case *ssa.FieldAddr:
+						if x.X == v {
+							needs = append(needs, x)
+						}
+					case *ssa.MakeInterface:
+						needs = append(needs, x)
+					case *ssa.Phi:
+						walk(x, depth+1)
+					case ssa.CallInstruction:
+						if f2 := core.StaticCalleeFn(x); f2 != nil && f2.Signature.Recv() != nil && len(x.Common().Args) > 0 && x.Common().Args[0] == v {
+							if _, isPtr := f2.Signature.Recv().Type().Underlying().(*types.Pointer); isPtr && derefsReceiver(f2) {
+								needs = append(needs, x)
+							}
+						}
+					}
+				}
+			}
+			walk(call, 0)
+			if len(needs) == 0 {
+				return
+			}
+			nonNil := core.AnyFact(func(fc core.Fact) bool {
+				if fc.Op != token.NEQ {
+					return false
+				}
+				for _, pr := range [][2]ssa.Value{{fc.X, fc.Y}, {fc.Y, fc.X}} {
+					if core.IsNilConst(pr[1]) && core.FlowsFrom(pr[0], map[ssa.Value]bool{call: true}) {
+						return true
+					}
+				}
+				return false
+			})
+			var w []*ssa.BasicBlock
+			for _, use := range needs {
+				if w2 := core.InstrGuarded(use, nonNil, nil); w2 != nil {
+					w = w2
+				}
+			}
+			n++
+			k := fmt.Sprintf("%s NilResult %s", core.FuncName(fn), core.FuncName(cf))
+			perFn[k]++
+			key := k
+			if perFn[k] > 1 {
+				key = fmt.Sprintf("%s #%d", k, perFn[k])
+			}
+			if os.Getenv("VERIF_C01_NILDUMP") != "" {
+				fmt.Fprintf(os.Stderr, "nil-result %s guarded=%v @%s\n", key, w == nil, p.Pos(call.Pos()))
+			}
+			if w == nil {
+				r.Pass("R9.nil-result", key, p.Pos(call.Pos()), "used only after a non-nil test")
+				return
+			}
+			if e, ok := want[k]; ok {
+				r.Pass("R9.nil-result", key, p.Pos(call.Pos()), "triaged: "+e.Reason)
+				return
+			}
+			r.Fail("R9.nil-result", key, p.Pos(call.Pos()), "the callee returns nil for 'no such thing' and its result is dereferenced (or boxed into an interface whose methods are then called) here without a nil test, and the site is not in the triage table: with a suitable sender or record the handler panics: "+p.PathString(w))
+		})
+	}
+	r.Count("maybe_nil_functions", len(maybeNil))
+	r.Count("nil_result_sites", n)
+}
+
+// derefsReceiver: the method reads a field through its receiver somewhere (a nil receiver panics).
+func derefsReceiver(f *ssa.Function) bool {
+	if len(f.Params) == 0 {
+		return false
+	}
+	for _, b := range f.Blocks {
+		for _, in := range b.Instrs {
+			if fa, ok := in.(*ssa.FieldAddr); ok && fa.X == ssa.Value(f.Params[0]) {
+				return true
+			}
+		}
+	}
+	return false
+}
